@@ -3,6 +3,7 @@ import os
 import random
 
 import catchup
+import recv
 import cluster
 import common
 import render
@@ -102,8 +103,13 @@ def run(tier, seed):
     cu_path = os.path.join(wd, "catchup.ndjson")
     n_calls, per_run = catchup.normalize(raws, cu_path)
     bad, checked = catchup.validate(cu_path, wd)
+    # ... and whose receiving side handled every delivered line as NunRecv says (the data of every node at a recorded
+    # state = the fold of the modelled receive path over the lines delivered to it since the previous one)
+    rv_path, rv_tab = os.path.join(wd, "recv.ndjson"), os.path.join(wd, "recvtab.json")
+    n_recv, _ = recv.normalize(raws, rv_path, rv_tab)
+    bad_recv, checked_recv = recv.validate(rv_path, rv_tab, wd)
     norm_path = os.path.join(wd, "norm.ndjson")
-    cluster.normalize(raws, norm_path, conf_by_run={c["id"]: c["id"] not in bad for c in cases})
+    cluster.normalize(raws, norm_path, conf_by_run={c["id"]: (c["id"] not in bad and c["id"] not in bad_recv) for c in cases})
     out = common.validate_into(res, norm_path, "Trace_Cluster.tla", "Trace_Cluster.cfg", CHECKS, devs,
                                "/dev/null", wd, {c["id"]: c for c in cases})
     res.coverage.update({
@@ -111,6 +117,8 @@ def run(tier, seed):
         "model": "Trace_Cluster.tla (ClusterMonitor reference, group CONV at the quiescence after the rejoin)",
         "traces_validated_against_impl": out["runs"], "events_validated": out["events"], "cases": len(cases),
         "catch_up_calls_checked_against_NunCatchUp": checked, "catch_up_calls_not_conforming": sum(len(v) for v in bad.values()),
+        "receive_intervals_checked_against_NunRecv": checked_recv,
+        "receive_intervals_not_conforming": sum(len(v) for v in bad_recv.values()),
         "samples": [{"meta": c["meta"], "ops": [o["line"] for o in c["ops"]][-12:]} for c in cases[:: max(1, len(cases) // 3)][:3]],
         "exhaustive": False,
         "rule": "primary histories of 1-6 (thorough 1-10) operations over 1-2 databases (set with multi-word, "
